@@ -25,7 +25,9 @@ ProjOK(o, m, pr) ==
         /\ ("mode" \in Cmp => o.mode = Proj(m).mode /\ o.mode = pr.s)
         /\ ("sel"  \in Cmp => o.cSel % 64 = m.cSel /\ o.nSel % 64 = m.nSel)
         /\ ("run"  \in Cmp => o.drawOp = m.drawOp /\ o.nPend = m.nPend /\ o.hiResL = m.hiResL)
-        /\ ("lod"  \in Cmp => Same(o.lod[1], m.lod[1]) /\ Same(o.lod[2], m.lod[2])))
+        \* the raw LOD fields of a zero-value Encoder are not observable before the lazy default
+        \* metadata is applied (the public LOD() applies it first): compared only afterwards
+        /\ ("lod"  \in Cmp /\ o.init = 0 => Same(o.lod[1], m.lod[1]) /\ Same(o.lod[2], m.lod[2])))
 
 (* values returned by read-backs *)
 RetOK(call, ret, m, pr) ==
